@@ -11,6 +11,14 @@
 * `FlatColumn.arrow_field` (orso/schema.py): the two arguments of `pyarrow.decimal128(…)`
   (`self.precision or DECIMAL_PRECISION`, `10 if self.scale is None else self.scale`).
 
+Round 3 adds: the decimal defaulting block at the end of `FlatColumn.__init__` (what a DECIMAL column's
+precision and scale are after construction: `initPrecision`, `initScale`), the argument each glue site passes
+on as the size (`DataFrame.arrow` -> `to_arrow`, `DataFrame.pandas` -> `to_pandas`, `to_pandas` ->
+`dataset.arrow`: `frameArrowArg`, `framePandasArg`, `toPandasArrowArg`), the stream of tables `from_arrow`
+hands to `_RowsIterator` (`itertools.chain([first_table], tables)`: `streamKeepsFirst`) and whether
+`__next__` fetches the next table in a loop (`while row is None`) or once (`if row is None`): `fetchLoops`; the type
+names of `from_arrow`'s two `isinstance(tables, …)` tests (`acceptedShapes`, `iteredShapes`).
+
 `Model/Arrow.lean` assembles them in a hand-written skeleton; `Props/C11.lean` proves one small
 "expression fact" per item (`next_guard_spec`, `next_bookkeeping_spec`, `from_arrow_size_spec`,
 `to_arrow_guard_spec`, `decimal_defaulting_spec`) and everything else from those facts, so a changed
@@ -21,6 +29,12 @@ import ast
 
 from ..extract import HEADER, Src
 from ..pyexpr import Untranslatable, assignments, find_function, if_tests, to_lean
+
+PINNED_R3 = {
+    "init.precision": "(match precision with | none => some (28) | some v => some v)",
+    "init.scale": "(match scale with | none => some ((Int.fdiv (3 * precision) 4)) | some v => some v)",
+    "glue.identity": "size",
+}
 
 PINNED = {
     "next.stop_test": "(rows_processed ≥ max_size)",
@@ -80,9 +94,156 @@ def defaulting(node, attr, env):
     raise Untranslatable("decimal argument " + ast.unparse(node))
 
 
+def opt_update(value, attr, default_of):
+    """The value `self.<attr>` is given by `self.<attr> = <value>` as a Lean term of type `Option Int` in the
+    variable `<attr> : Option Int`; `default_of(node)` translates the default expression.
+    Recognised: `self.x or d` (Python's value-`or`: d for None and for 0), `d if self.x is None else self.x`,
+    `self.x if self.x is not None else d`, `self.x`."""
+    me = "self." + attr
+
+    def is_me(n):
+        return ast.unparse(n) == me
+
+    if is_me(value):
+        return attr
+    if isinstance(value, ast.BoolOp) and isinstance(value.op, ast.Or) and len(value.values) == 2 and is_me(value.values[0]):
+        d = default_of(value.values[1])
+        return "(match %s with | none => some (%s) | some v => if v = 0 then some (%s) else some v)" % (attr, d, d)
+    if isinstance(value, ast.IfExp) and isinstance(value.test, ast.Compare) and len(value.test.ops) == 1 \
+            and is_me(value.test.left) and _is_none(value.test.comparators[0]):
+        if isinstance(value.test.ops[0], ast.Is) and is_me(value.orelse):
+            return "(match %s with | none => some (%s) | some v => some v)" % (attr, default_of(value.body))
+        if isinstance(value.test.ops[0], ast.IsNot) and is_me(value.body):
+            return "(match %s with | none => some (%s) | some v => some v)" % (attr, default_of(value.orelse))
+    raise Untranslatable("update of %s: %s" % (me, ast.unparse(value)))
+
+
+def int_of_scaled(node, env):
+    """`int(<float constant> * x)` / `int(x * <float constant>)` for a non-negative integer x -> exact Lean Int
+    term (`int` truncates; for x >= 0 and a non-negative constant that is the floor of the exact product: the
+    float product of a dyadic constant like 0.75 with a small integer is exact)."""
+    if isinstance(node, ast.Call) and isinstance(node.func, ast.Name) and node.func.id == "int" and len(node.args) == 1 \
+            and not node.keywords and isinstance(node.args[0], ast.BinOp) and isinstance(node.args[0].op, ast.Mult):
+        a, b = node.args[0].left, node.args[0].right
+        if isinstance(b, ast.Constant):
+            a, b = b, a
+        if isinstance(a, ast.Constant) and isinstance(a.value, (int, float)) and not isinstance(a.value, bool) and a.value >= 0:
+            num, den = (float(a.value)).as_integer_ratio()
+            if den & (den - 1) == 0 and den <= 1024:
+                return "(Int.fdiv (%d * %s) %d)" % (num, to_lean(b, env), den)
+    return to_lean(node, env)
+
+
+def decimal_init_defaults(fn, prec_default):
+    """The decimal block of `FlatColumn.__init__`: top-level `if` statements whose test says
+    `self.type == OrsoTypes.DECIMAL` (optionally `and self.<attr> is None`), whose bodies assign
+    `self.precision` / `self.scale`.  -> (Lean term for the precision, Lean term for the scale in the variables
+    `scale : Option Int` and `precision : Int`, the precision *after* its own defaulting)."""
+    is_dec = "self.type == OrsoTypes.DECIMAL"
+    terms = {}
+
+    def default_of(attr):
+        def go(node):
+            txt = ast.unparse(node)
+            if attr == "precision":
+                if txt in ("getcontext().prec", "decimal.getcontext().prec", "DECIMAL_PRECISION"):
+                    return "%d" % prec_default
+                return to_lean(node, {})
+            return int_of_scaled(node, {"self.precision": "precision"})
+        return go
+
+    def visit(stmts, none_guard):
+        for st in stmts:
+            if isinstance(st, (ast.Import, ast.ImportFrom, ast.Pass)):
+                continue
+            if isinstance(st, ast.If) and not st.orelse:
+                parts = st.test.values if isinstance(st.test, ast.BoolOp) and isinstance(st.test.op, ast.And) else [st.test]
+                texts = [ast.unparse(x) for x in parts]
+                guard = none_guard
+                ok = True
+                for t in texts:
+                    if t == is_dec:
+                        continue
+                    m = [a for a in ("precision", "scale") if t == "self.%s is None" % a]
+                    f = [a for a in ("precision", "scale") if t == "not self.%s" % a]  # falsy: None *or 0*
+                    if m and guard is None:
+                        guard = m[0]
+                    elif f and guard is None:
+                        guard = f[0] + ":falsy"
+                    else:
+                        ok = False
+                if not ok:
+                    raise Untranslatable("guard " + ast.unparse(st.test))
+                visit(st.body, guard)
+                continue
+            if isinstance(st, ast.Assign) and len(st.targets) == 1 and ast.unparse(st.targets[0]) in ("self.precision", "self.scale"):
+                attr = ast.unparse(st.targets[0])[5:]
+                if attr in terms:
+                    raise Untranslatable("self.%s assigned twice" % attr)
+                if attr == "scale" and "precision" not in terms and "self.precision" in ast.unparse(st.value):
+                    # the scale default reads the precision before the precision has been defaulted
+                    raise Untranslatable("scale default reads the precision before it is defaulted")
+                if none_guard in (attr, attr + ":falsy"):
+                    if "self." + attr in ast.unparse(st.value):
+                        raise Untranslatable("guarded update reads itself")
+                    d = default_of(attr)(st.value)
+                    if none_guard == attr:
+                        terms[attr] = "(match %s with | none => some (%s) | some v => some v)" % (attr, d)
+                    else:
+                        terms[attr] = "(match %s with | none => some (%s) | some v => if v = 0 then some (%s) else some v)" \
+                            % (attr, d, d)
+                elif none_guard is None:
+                    terms[attr] = opt_update(st.value, attr, default_of(attr))
+                else:
+                    raise Untranslatable("self.%s assigned under a guard on self.%s" % (attr, none_guard))
+                continue
+            raise Untranslatable("statement in the decimal block: " + ast.unparse(st)[:60])
+
+    blocks = [st for st in fn.body if isinstance(st, ast.If) and "OrsoTypes.DECIMAL" in ast.unparse(st.test)
+              and any(isinstance(n, ast.Assign) and ast.unparse(n.targets[0]) in ("self.precision", "self.scale")
+                      for n in ast.walk(st))]
+    if not blocks:
+        raise KeyError("if self.type == OrsoTypes.DECIMAL …: self.precision / self.scale = …")
+    visit(blocks, None)
+    if set(terms) != {"precision", "scale"}:
+        raise KeyError("both self.precision and self.scale defaulted")
+    return [terms["precision"], terms["scale"]]
+
+
+def size_passed(fn, callee, param="size"):
+    """The expression a glue function passes on as the size in its (only) call of `callee` (positional argument
+    after the dataset, or `size=` keyword) as a Lean term `Option Int` in the variable `size : Option Int`:
+    `size` -> size; `size or None` -> a zero becomes None; `None` -> none."""
+    calls = [n for n in ast.walk(fn) if isinstance(n, ast.Call) and ast.unparse(n.func).split(".")[-1] == callee]
+    if len(calls) != 1:
+        raise KeyError("exactly one call of %s" % callee)
+    c = calls[0]
+    kws = {k.arg: k.value for k in c.keywords}
+    if "size" in kws:
+        arg = kws["size"]
+    else:
+        pos = [a for a in c.args if ast.unparse(a) not in ("self", "dataset")]
+        if len(pos) != 1:
+            raise KeyError("one size argument in the call of %s" % callee)
+        arg = pos[0]
+    txt = ast.unparse(arg)
+    if txt == param:
+        return "size"
+    if txt == "None":
+        return "none"
+    if isinstance(arg, ast.BoolOp) and isinstance(arg.op, ast.Or) and len(arg.values) == 2 \
+            and ast.unparse(arg.values[0]) == param and ast.unparse(arg.values[1]) == "None":
+        return "(match size with | none => none | some v => if v = 0 then none else some v)"
+    if isinstance(arg, ast.IfExp) and ast.unparse(arg.test) == param and ast.unparse(arg.body) == param \
+            and ast.unparse(arg.orelse) == "None":
+        return "(match size with | none => none | some v => if v = 0 then none else some v)"
+    return "(match size with | none => none | some size => some (%s))" % to_lean(arg, {param: "size"})
+
+
 def generate(o):
     conv = Src("orso/converters.py")
     schema = Src("orso/schema.py")
+    frame = Src("orso/dataframe.py")
     prec_default = o.json.get("arrow.DECIMAL_PRECISION", 28)
 
     # ---- _RowsIterator.__next__
@@ -188,6 +349,83 @@ def generate(o):
             raise KeyError("the pyarrow.decimal128(<precision>, <scale>) call")
         return [defaulting(calls[0].args[0], "precision", env_af), defaulting(calls[0].args[1], "scale", env_af)]
 
+    # ---- round 3
+    def init_defaults():
+        return decimal_init_defaults(find_function(schema.tree, "__init__", "FlatColumn"), prec_default)
+
+    def stream_keeps_first():
+        # `_RowsIterator(tables=itertools.chain([first_table], tables), …)`: the table taken off the stream for
+        # the schema is put back in front of it
+        fn = find_function(conv.tree, "from_arrow")
+        calls = [n for n in ast.walk(fn) if isinstance(n, ast.Call) and ast.unparse(n.func) == "_RowsIterator"]
+        if len(calls) != 1:
+            raise KeyError("one _RowsIterator(...) call")
+        kws = {k.arg: k.value for k in calls[0].keywords}
+        arg = kws.get("tables", calls[0].args[0] if calls[0].args else None)
+        if arg is None:
+            raise KeyError("tables= argument")
+        txt = ast.unparse(arg).replace(" ", "")
+        if txt in ("itertools.chain([first_table],tables)", "chain([first_table],tables)",
+                   "itertools.chain((first_table,),tables)"):
+            return True
+        if txt == "tables":
+            return False
+        raise KeyError("tables=" + txt)
+
+    def fetch_loops():
+        # the statement that holds `self.current_table = next(self.tables, None)`: `while row is None` or `if row is None`
+        fn = next_fn()
+        for n in ast.walk(fn):
+            if isinstance(n, (ast.While, ast.If)) and ast.unparse(n.test) == "row is None" and any(
+                    isinstance(x, ast.Assign) and ast.unparse(x.targets[0]) == "self.current_table" for x in n.body):
+                return isinstance(n, ast.While)
+        raise KeyError("while row is None: self.current_table = next(self.tables, None)")
+
+    def input_dispatch():
+        # `if not isinstance(tables, (typing.Generator, list, tuple)): tables = [tables]` and
+        # `if isinstance(tables, (list, tuple)): tables = iter(tables)` - the shapes named by the two tests
+        fn = find_function(conv.tree, "from_arrow")
+
+        def shapes(call):
+            if not (isinstance(call, ast.Call) and ast.unparse(call.func) == "isinstance" and len(call.args) == 2
+                    and ast.unparse(call.args[0]) == "tables"):
+                raise KeyError("isinstance(tables, …)")
+            a = call.args[1]
+            elts = a.elts if isinstance(a, ast.Tuple) else [a]
+            return [ast.unparse(e).split(".")[-1] for e in elts]
+
+        accepted = itered = None
+        for st in fn.body:
+            if not isinstance(st, ast.If) or "isinstance(tables" not in ast.unparse(st.test):
+                continue
+            body = [ast.unparse(x).replace(" ", "") for x in st.body]
+            if st.orelse:
+                raise KeyError("an isinstance test on `tables` with an else branch")
+            if isinstance(st.test, ast.UnaryOp) and isinstance(st.test.op, ast.Not) and body == ["tables=[tables]"]:
+                if accepted is not None:
+                    raise KeyError("two wrapping tests")
+                accepted = shapes(st.test.operand)
+            elif isinstance(st.test, ast.Call) and body == ["tables=iter(tables)"]:
+                if itered is not None or accepted is None:
+                    raise KeyError("two iter tests / iter before the wrapping test")
+                itered = shapes(st.test)
+            else:
+                raise KeyError("isinstance test on `tables` of another shape: " + ast.unparse(st.test)[:50])
+        if accepted is None or itered is None:
+            raise KeyError("the two isinstance tests on `tables`")
+        return [accepted, itered]
+
+    accepted, itered = o.item("arrowexpr.from_arrow.input_dispatch", input_dispatch, [["Generator", "list", "tuple"], ["list", "tuple"]])
+    ip, isc = o.item("arrowexpr.init.decimal_defaults", init_defaults, [PINNED_R3["init.precision"], PINNED_R3["init.scale"]])
+    g_arrow = o.item("arrowexpr.glue.DataFrame.arrow", lambda: size_passed(find_function(frame.tree, "arrow", "DataFrame"), "to_arrow"),
+                     PINNED_R3["glue.identity"])
+    g_pandas = o.item("arrowexpr.glue.DataFrame.pandas", lambda: size_passed(find_function(frame.tree, "pandas", "DataFrame"), "to_pandas"),
+                      PINNED_R3["glue.identity"])
+    g_topandas = o.item("arrowexpr.glue.to_pandas", lambda: size_passed(find_function(conv.tree, "to_pandas"), "arrow"),
+                        PINNED_R3["glue.identity"])
+    keeps_first = o.item("arrowexpr.from_arrow.stream_keeps_first", stream_keeps_first, True)
+    loops = o.item("arrowexpr.next.fetch_loops", fetch_loops, True)
+
     v = {}
     v["stop"] = o.item("arrowexpr.next.stop_test", stop_test, PINNED["next.stop_test"])
     v["bump"] = o.item("arrowexpr.next.bump", bump, PINNED["next.bump"])
@@ -225,5 +463,23 @@ def generate(o):
     text += "def decimalPrecisionArg (precision : Option Int) : Option Int := %s\n" % dp
     text += "/-- …and the second from `self.scale` -/\n"
     text += "def decimalScaleArg (scale : Option Int) : Option Int := %s\n" % ds
+    text += "/-- schema.py `FlatColumn.__init__`, decimal block: `self.precision` of a DECIMAL column after construction -/\n"
+    text += "def initPrecision (precision : Option Int) : Option Int := %s\n" % ip
+    text += "/-- …and `self.scale` (`precision` is the precision after its own defaulting) -/\n"
+    text += "def initScale (scale : Option Int) (precision : Int) : Option Int := %s\n" % isc
+    text += "/-- dataframe.py `DataFrame.arrow(size)`: the size it hands to `to_arrow` -/\n"
+    text += "def frameArrowArg (size : Option Int) : Option Int := %s\n" % g_arrow
+    text += "/-- dataframe.py `DataFrame.pandas(size)`: the size it hands to `to_pandas` -/\n"
+    text += "def framePandasArg (size : Option Int) : Option Int := %s\n" % g_pandas
+    text += "/-- converters.py `to_pandas(dataset, size)`: the size it hands to `dataset.arrow` -/\n"
+    text += "def toPandasArrowArg (size : Option Int) : Option Int := %s\n" % g_topandas
+    text += "/-- converters.py `from_arrow`: the table taken off the stream for the schema is chained back in front of it -/\n"
+    text += "def streamKeepsFirst : Bool := %s\n" % ("true" if keeps_first else "false")
+    text += "/-- converters.py `__next__`: the next table is fetched in a loop (`while row is None`), not once (`if row is None`) -/\n"
+    text += "def fetchLoops : Bool := %s\n" % ("true" if loops else "false")
+    text += "/-- converters.py `from_arrow`: the type names in `if not isinstance(tables, (…)): tables = [tables]` -/\n"
+    text += "def acceptedShapes : List String := [%s]\n" % ", ".join('"%s"' % x for x in accepted)
+    text += "/-- …and in `if isinstance(tables, (…)): tables = iter(tables)` -/\n"
+    text += "def iteredShapes : List String := [%s]\n" % ", ".join('"%s"' % x for x in itered)
     text += "end Gen.ArrowExpr\n"
     o.files["ArrowExpr.lean"] = text
